@@ -60,35 +60,17 @@ Theorem C08_not_early : forall hooks orc e b s s' t r,
 Proof. exact transition_not_early. Qed.
 Print Assumptions C08_not_early.
 
-(* Await.  Full statement: when handleHooks has gone through the weights of a moment without a
-   critical failure, whatever is still pending at a point of that pass was started after the
-   point had been passed. *)
-Definition C08_await_blocks_statement : Prop :=
-  forall hooks orc m pred s s' t,
-    run_pass hooks orc m pred s = (s', t, POk) ->
-    forall w i, In ((m, w), i) (e_pend s') -> pred w = true ->
-      exists h snap, In (TStart i h snap) t /\ (w < snd (h_trig h))%Z.
-
-(* Refuted by the code as it is (finding C08-a): handleHooks fixes its list of weights on entry;
-   a call triggered at before_CONFIGURE+1 and awaited at before_CONFIGURE+5, with nothing else
-   at +5, is registered under +5 after the list was made, the pass never visits +5, and the
-   state machine goes on to leave_<state> with the call still pending. *)
-Theorem C08_await_blocks_refuted : ~ C08_await_blocks_statement.
-Proof. exact await_statement_refuted. Qed.
-Print Assumptions C08_await_blocks_refuted.
-
-(* It holds exactly when such "lone later weights" are excluded: every await point at a later
-   weight of the same pass is also the trigger point of some hook (or the statement's other
-   cases: await at the trigger point itself, in the other sign class, in another moment) *)
-Theorem C08_await_blocks_partial : forall hooks orc m pred s s' t,
+(* Await: when handleHooks has gone through the weights of a moment without a critical failure,
+   whatever is still pending at a point of that pass was started after the point had been passed
+   (so the state machine never moves past the await point of a call that is running).  This used
+   to be false for an await point at a later weight where no hook is triggered (former finding
+   C08-a, repaired: the weight list of a pass now contains the await weights of its calls). *)
+Theorem C08_await_blocks : forall hooks orc m pred s s' t,
   run_pass hooks orc m pred s = (s', t, POk) ->
-  (forall h, In h hooks -> is_call h = true -> fst (h_trig h) = m -> fst (h_await h) = m ->
-     pred (snd (h_trig h)) = true -> pred (snd (h_await h)) = true ->
-     (snd (h_trig h) < snd (h_await h))%Z -> exists h', In h' hooks /\ h_trig h' = h_await h) ->
   forall w i, In ((m, w), i) (e_pend s') -> pred w = true ->
     exists h snap, In (TStart i h snap) t /\ h_await h = (m, w) /\ (w < snd (h_trig h))%Z.
 Proof. exact run_pass_await. Qed.
-Print Assumptions C08_await_blocks_partial.
+Print Assumptions C08_await_blocks.
 
 (* callsPendingAwait is exact: over any history, for every set [g] of call instances, the
    instances started so far are the ones collected so far plus the ones pending (counted with
